@@ -128,7 +128,15 @@ func main() {
 		bits, nimax, npmax := uint8(bits64), uint32(imax64), uint32(pmax64)
 		rng := rand.New(rand.NewSource(seed))
 		res := result{Case: cs, Line: sc.Text()}
-		term := func() string {
+		term := func() (out string) {
+			defer func() {
+				if r := recover(); r != nil {
+					if res.Phase == "" {
+						res.Phase = "upgrade"
+					}
+					res.Phase, res.Bad, out = "panic during "+res.Phase, fmt.Sprint(r), ""
+				}
+			}()
 			dir, _ := os.MkdirTemp("", "leg")
 			defer os.RemoveAll(dir)
 			s, err := open(context.Background(), dir, bits, 1<<30, 1<<30)
@@ -197,6 +205,7 @@ func main() {
 			res.Keys, res.Recs = len(want), len(recSizes)
 			// ---- interrupted upgrades, each followed by a plain open
 			for _, b := range []int64{0, 1, 2, 3, 5, 8, 13} {
+				res.Phase = fmt.Sprintf("an upgrade interrupted at context poll %d or its resumption", b)
 				c := copyDir(dir)
 				n := b
 				if s1, err := open(budgetCtx{context.Background(), &n}, c, bits, nimax, npmax); err == nil {
@@ -217,6 +226,7 @@ func main() {
 				}
 			}
 			// ---- the uninterrupted upgrade
+			res.Phase = "the uninterrupted upgrade"
 			u, err := open(context.Background(), dir, bits, nimax, npmax)
 			if err != nil {
 				res.Phase, res.Bad = "upgrade", err.Error()
